@@ -445,6 +445,9 @@ func (fv *FV) frameCheckLoc(st *State, m modLoc, in ssa.Instruction, callee stri
 		}
 		g = Forall([]*Term{xo}, Implies(m.cond(xo), Or(alts...)))
 	case "ghost":
+		if gv := fv.P.Specs.GhostV[m.name]; gv != nil && gv.Log {
+			return
+		}
 		g = False
 		for _, c := range st.mods {
 			if c.kind == "ghost" && c.name == m.name {
@@ -459,6 +462,9 @@ func (fv *FV) frameCheckLoc(st *State, m modLoc, in ssa.Instruction, callee stri
 			}
 		}
 	case "ghostidx":
+		if gv := fv.P.Specs.GhostV[m.name]; gv != nil && gv.Log {
+			return
+		}
 		alts := []*Term{}
 		for _, c := range st.mods {
 			if c.kind == "allexcept" && !c.exceptGhost[m.name] {
